@@ -132,6 +132,13 @@ func (c *AttackCtx) attackerSign(el *etree.Element, variant int) {
 	case 3:
 		spec = DefaultSign("A2")
 	}
+	if variant%16 >= 12 {
+		// the attacker's own certificate, dressed up with the subject and SubjectKeyIdentifier / serial number of a
+		// trusted one
+		la := CertRef{"A", []string{"like-T1ski", "like-T2ski", "like-T1", "like-T1ski"}[variant%4]}
+		spec = DefaultSign("A")
+		spec.Embed = &la
+	}
 	spec.AfterIssuer = variant%8 < 4
 	if err := SignInPlace(el, spec); err == nil {
 		c.note("attacker-signed")
